@@ -329,6 +329,8 @@ static conv_fn const default_conv = idn2_to_ascii_8z;
 
 void sim_conv_at (int at) { g_sim_conv.at = at < 1 ? 1 : at; }
 
+int g_sim_conv_style;
+static int all_ascii (const char *s) { for (; *s; s++) if ((unsigned char)*s >= 0x80) return 0; return 1; }
 static int convert_with (conv_fn real, const char *in, char **out, int *fault, int flags)
 {
     int rc;
@@ -356,6 +358,14 @@ static int convert_with (conv_fn real, const char *in, char **out, int *fault, i
         default: break;             /* *out untouched */
         }
         rc = g_sim_conv.code;
+    } else if (g_sim_conv_style == 1 && all_ascii (in) && strlen (in) <= 1000) {      /* (longer than idnkit's caller-side buffer: its API cannot deliver that, so the conversions would not be equivalent) */
+        /* another, equally legitimate converter: IDNA2003-style ToASCII leaves an all-ASCII name exactly as it is (no case
+         * folding, no hyphen or length rules) - libidn behaves like this; all builds of a lock-step run share the style */
+        size_t n = strlen (in) + 1;
+        char *p = (char *)sim_raw_malloc (n);
+        memcpy (p, in, n);
+        *out = p; rc = 0;
+        g_sim_conv.real_calls++;
     } else {
         in_raw++;
         rc = real (in, out, cflags);
